@@ -783,12 +783,18 @@ class Calls(Interp):
         c = self.cont(v)
         if isinstance(c, EmptyV):
             return VBool(is_all)
-        if not isinstance(c, ListV) or c.ty.e is not TBool:
+        if not isinstance(c, ListV) or not (c.ty.e is TBool or isinstance(c.ty.e, TObj)):
             raise Unsupported("all/any over %r" % (c,))
         b = self.fresh("all" if is_all else "any", z3.BoolSort())
         w = self.fresh("w", z3.IntSort())
         self.touch(TInt, w)
         arr, n = c.arr, c.n
+        if isinstance(c.ty.e, TObj):
+            # a list of arbitrary objects: all / any go by their truthiness
+            class _T:
+                def __getitem__(s_, i):
+                    return self.truth(VObj(c.arr[i]))
+            arr = _T()
         if is_all:
             self.add_universal([TInt], lambda i: z3.Implies(z3.And(b, 0 <= i, i < n), arr[i]), "all")
             self.assume(z3.Implies(z3.Not(b), z3.And(0 <= w, w < n, z3.Not(arr[w]))))
